@@ -174,6 +174,22 @@ CHECKS = {
             "zero curvature are not exercised. NOT decided (numerical): monotone A-norm error, Chebyshev bound, that "
             "t_mat is the Lanczos matrix, preconditioner independence of the answer.",
             TRUST, "DESIGN.md section 3, C08"),
+    "C11": (True,
+            "backward data dependence, dominance and branch-polarity on the statement CFG of minres / "
+            "contour_integral_quad; role-typed permutation check of the tail buffer rotations; table agreement between "
+            "the producer's 4-tuple and its five unpacking call sites; row-offset table of the un-shifted solve",
+            "Partial, structural: for all inputs, shift batches and iteration counts - the solution is masked by "
+            "rhs_is_zero on every path after the loop (M1) and un-normalised by rhs_norm (M2); squeeze(0) only under a "
+            "test on the number of shifts, shifts defaulted before its first dereference with rhs's dtype/device (M3); "
+            "squeeze(-1) paired with unsqueeze(-1) through the flag (M4); shifts and value reach the recurrence and the "
+            "helper call passes buffers by role (M5); every tail rotation of the Lanczos / Givens buffers is alias-free "
+            "and shifts roles prev2 <- prev1 <- curr (M6; such errors appear only after 2-3 iterations); clamped "
+            "divisions and a tolerance-controlled exit (M7); consumers of contour_integral_quad unpack by the producer's "
+            "positions and multiply the weights with the shifted solves only (Q1); the un-shifted solve occupies the "
+            "same leading rows in allocation, fill and split (Q2); `inverse` controls the extra K-multiplication with "
+            "the right polarity (Q3); non-positive eigenvalue estimates fall back to the diagonal (Q4). NOT decided "
+            "(numerical): solve accuracy, quadrature accuracy, sqrt_inv_matmul twice = A^{-1}, CIQ sample covariance.",
+            TRUST, "DESIGN.md section 3, C11"),
 }
 
 NOT_APPLICABLE = {
